@@ -16,6 +16,14 @@ def natToBits : Nat → Nat → List Bool
 
 def bitsToNat (bits : List Bool) : Nat := bits.foldl (fun acc b => 2 * acc + (if b then 1 else 0)) 0
 
+/-- X.680 §23.3 (OCTET STRING value notation): the bits of a bstring / hstring are taken eight at a time; when they
+    do not fill the last octet they are read "as if" zero bits followed (`fuel` ≥ number of octets) -/
+def octetsOfBits : Nat → List Bool → List Nat
+  | 0, _ => []
+  | f + 1, bits =>
+    if bits.isEmpty then []
+    else bitsToNat ((bits.take 8) ++ List.replicate (8 - (bits.take 8).length) false) :: octetsOfBits f (bits.drop 8)
+
 /-- §12.12: each hstring digit denotes four bits, most significant first -/
 def hstringBits (s : List Char) : List Bool := s.flatMap fun c => natToBits 4 (hexVal c)
 
